@@ -984,10 +984,10 @@ type ewWorld struct {
 	lOpen    map[string]bool
 	lRefs    map[int]bool
 
-	profile  int
-	faultMu  sync.Mutex
-	faulted  map[string]bool
-	leakedOK map[int]bool // interfaces a faulted roll-back was allowed to leave behind
+	profile   int
+	faultMu   sync.Mutex
+	faulted   map[string]bool
+	leakedOK  map[int]bool // interfaces a faulted roll-back was allowed to leave behind
 	anomalies []string
 }
 
@@ -998,8 +998,9 @@ var ewNodes = []struct {
 
 type ewNoRecorder struct{}
 
-func (ewNoRecorder) Event(object k8sruntime.Object, eventtype, reason, message string)                    {}
-func (ewNoRecorder) Eventf(object k8sruntime.Object, eventtype, reason, messageFmt string, args ...any) {}
+func (ewNoRecorder) Event(object k8sruntime.Object, eventtype, reason, message string) {}
+func (ewNoRecorder) Eventf(object k8sruntime.Object, eventtype, reason, messageFmt string, args ...any) {
+}
 func (ewNoRecorder) AnnotatedEventf(object k8sruntime.Object, annotations map[string]string, eventtype, reason, messageFmt string, args ...any) {
 }
 
@@ -1517,4 +1518,3 @@ func (w *ewWorld) lEndAll() {
 		}
 	}
 }
-
